@@ -1963,7 +1963,9 @@ pub fn run(scn: &Scenario, cfg: &SimCfg) -> SimOut {
 /// `run`, with the write half accepting nothing more from event index `block_at` on
 /// (back-pressure that is never released).
 pub fn run_with_block(scn: &Scenario, cfg: &SimCfg, block_at: usize) -> SimOut {
-    let w = World::new();
+    let mut w = World::new();
+    // disciplines that poll every task after every event need (events x tasks) polls
+    w.poll_budget = (300_000 + scn.events.len() * scn.events.len() * 8).min(400_000_000);
     let connack = rc::Connack {
         receive_maximum: scn.receive_max,
         maximum_packet_size: scn.max_packet_size,
